@@ -306,3 +306,8 @@ def _minus_ghost(tag):
 
 for _t in ('second', 'minute', 'hour', 'day'):
     HOOKS['ct_%s_minus' % _t] = [(r'return n != \( std :: numeric_limits < diff_t > :: min \) \( \)', _minus_ghost(_t))]
+
+
+# --- year alignment: a day number <= 28 exists in every month of every year ------------------------------------------------------------
+GHOST['step_year'] = {0: "REVEAL_VALIDD(f.y, f.m, f.d);\nREVEAL_VALIDD(f.y + n, f.m, f.d);"}
+HOOKS['ct_year_minus'] = [(r'return n != \( std :: numeric_limits < diff_t > :: min \) \( \)', "/* REPR_year is plain int64 range: nothing to show for the intermediate step */")]
